@@ -624,7 +624,7 @@ def zcp_res(st, w, fs):
 
 
 # ----------------------------------------------------------------------------- case shards, robust against a loaded machine
-def run_shards(chk, cases, shard=250):
+def run_shards(chk, cases, shard=300):
     """common.run_case_shards + serial re-runs of shards whose coqc was killed (OOM killer / timeout on the shared machine).
     A shard that is killed three times is counted as skipped (note in the evidence), never as a verdict;
     a shard that coqc rejects (rc 1: malformed literal, type error) stays broken."""
@@ -754,7 +754,7 @@ def run(chk):
                                     "cp_mode_dot accepted an operand whose size does not match the mode / an order-1 contraction", "cp_mode_dot_invalid")
 
         # input forms: CPTensor object / plain tuple, weights given / None, copy on / off (one product and one flip per tensor)
-        if it % 2 == 0:
+        if it % 3 == 0:
             mode = rng.randrange(N)
             kind = rng.choice(["mat", "veck"] + (["vec"] if N > 1 else []))
             x = gen_operand(rng, fs[mode].shape[0], "vec" if kind == "veck" else kind)
@@ -825,21 +825,29 @@ def run(chk):
     chk.checker_cmds.append("coqc (vm_compute) on generated build/cases/C04/*.v: Corr.C04.failing")
     chk.cov["traces_validated_against_impl"] = n_eval
     chk.cov["exhaustive"] = False
-    chk.cov["rule"] = ("random CP / Tucker / PARAFAC2 / TT / TR tensors of order 1-4, mode sizes 1-3(4), rank 1-3(4) with small integer (exact) or quarter-integer entries; "
-                       "each tensor carries one degenerate feature (zero column, zero-sum column, negative weight, zero weight, all positive, none); every target mode (+1 invalid) "
-                       "x both summary functions for cp_flip_sign; every mode (+1 invalid) x {matrix, vector, vector keep_dim, mismatching operands} x copy for the mode products, each followed by a "
-                       "second product on the same operand (copy=True) or on the result (copy=False); distinct key = (function, shape+rank, feature, options)")
+    chk.cov["rule"] = ("corpus of past failures first; random CP / Tucker / PARAFAC2 / TT / TR tensors of order 1-4, mode sizes 1-3(5), rank 1-3(4) with small integer (exact) or quarter-integer / Gaussian entries; "
+                       "each tensor carries one degenerate feature (zero column, zero-sum column, negative weight, zero weight, zero core slice, rank 1, all positive, none); every target mode (+1 invalid) "
+                       "x both summary functions for cp_flip_sign; every mode (+1 invalid) x {matrix, vector, vector keep_dim, mismatching operands} x copy for the CP and Tucker mode products, each followed by a "
+                       "second product on the same operand (copy=True) or on the result (copy=False); operand forms {CPTensor object, plain tuple} x {weights, None} x copy; "
+                       "pad_tt_rank on TT and TR of order 1-4 x n_padding 1-3 x both pad_boundaries values; svd_compress thresholds {0, 1e-3, .25, .5, 1} x max_rank {None, 1, n_cols, n_cols+1}; "
+                       "distinct key = (function, shapes, feature, options)")
     for b in broken:
         chk.broken.append({"what": "correspondence corr:C04 shard not evaluated", "detail": b})
     for i in sorted(failing):
         chk.disagreement("corr:C04 (Model/Transforms.v vs tensorly)", {"call": [str(x) for x in meta[i]]})
     for m in meta[:: max(1, len(meta) // 4)][:4]:
         chk.sample({"call": [str(x) for x in m]})
-    chk.assumptions = ["the represented dense tensor is defined entry-wise (cp_entry etc.); tensorly's own *_to_tensor functions are compared against that definition on this run's integer cases",
-                       "size-0 modes and rank 0 are outside the model",
-                       "floating-point rounding is outside the theorems: they are stated over an abstract commutative ring / over R; the implementation is compared with the exact model at rtol 1e-9 on quarter-integer data"]
-    chk.trusted = ["square roots in cp_normalize & co. are data for the model; the contract s>=0, s*s = sum of squares is checked inside Coq on every case",
-                   "the assignment of cp_permute_factors (scipy linear_sum_assignment) is taken from the implementation; its optimality is checked by brute force over all permutations in Python"]
+    chk.assumptions = ["the represented dense tensors are defined entry-wise (cp_entry, tucker_entry, tt_entry / tr_entry, pf2_entry); tensorly's own cp_to_tensor, tucker_to_tensor, "
+                       "tt_to_tensor, tr_to_tensor (order >= 2) and parafac2_to_slice are compared against these definitions on this run's integer cases",
+                       "size-0 modes, rank 0, negative mode numbers and 4-D TT-matrix cores are outside the model",
+                       "mode products are compared at the level of the represented dense tensor and its shape (which factor absorbs a contracted vector is not part of the property); "
+                       "compressed slices are compared through loading x score",
+                       "floating-point rounding is outside the theorems: they are stated over an abstract commutative ring / over R; the implementation is compared with the exact model at rtol 1e-9 on quarter-integer / Gaussian data"]
+    chk.trusted = ["square roots in cp_normalize / tucker_normalize / parafac2_normalise are data for the model; the contract s>=0, s*s = sum of squares is checked inside Coq on every case",
+                   "QR (from_CPTensor) and SVD (svd_compress_tensor_slices, obtained through tensorly's svd_interface with the rank limit computed by the harness) answers are data; "
+                   "Q R = B and, for complete answers, U diag(s) Vh = X are checked inside Coq on every case",
+                   "the assignment of cp_permute_factors (scipy linear_sum_assignment) is taken from the implementation; its optimality is checked by brute force over all permutations in Python",
+                   "orthonormality of PARAFAC2 projections / loadings is a Python predicate only"]
     C.load_known = _load_known_with_snippet
     try:
         return chk.finish(CLASSIFIERS)
